@@ -3,7 +3,8 @@
    the reported flags are their images under seq_to_flag.  `unseen` is the MH marker, the exact
    complement of `Seen`; everything else is a flag of the reference model. *)
 From Asimap Require Import Base.Res Spec.SetSem Model.Mbox Proofs.FlagsP Proofs.MboxFlags.
-From Asimap Require Gen.Flags.
+From Asimap Require Import Proofs.KeywordsBridge.
+From Asimap Require Gen.Flags Gen.Keywords.
 Open Scope string_scope.
 
 (* STORE +FLAGS / -FLAGS / FLAGS on a message is set union / difference / replacement (keeping
@@ -52,6 +53,24 @@ Theorem C04_maps_are_the_generated_ones :
   (forall k, In k (map fst Gen.Flags.SYSTEM_FLAG_MAP) -> reserved_kw k = true).
 Proof. exact (conj gen_flag_to_seq (conj gen_seq_to_flag gen_reserved)). Qed.
 Print Assumptions C04_maps_are_the_generated_ones.
+
+(* the keywords the model refuses are exactly the ones mbox.unstorable_keywords (regenerated from the
+   source on every run, Gen/Keywords.v) returns: spelled like a reserved sequence, or with a ':' or a
+   character outside ASCII *)
+Theorem C04_reserved_keywords_are_the_generated_ones : forall flags,
+  Gen.Keywords.unstorable_keywords flags = Ok (filter reserved_kw flags).
+Proof. exact unstorable_keywords_is_reserved. Qed.
+Print Assumptions C04_reserved_keywords_are_the_generated_ones.
+
+(* hence a keyword the generated function lets through never turns into another flag on its way through
+   the sequence names and back *)
+Theorem C04_storable_keywords_roundtrip : forall f,
+  Gen.Keywords.unstorable_keywords [f] = Ok [] -> seq_to_flag (flag_to_seq f) = f.
+Proof.
+  intros f H. rewrite unstorable_keywords_is_reserved in H. cbn [filter] in H.
+  destruct (reserved_kw f) eqn:E; [discriminate H|]. exact (seq_of_flag_roundtrip f E).
+Qed.
+Print Assumptions C04_storable_keywords_roundtrip.
 
 Example C04_example :
   let m := {| m_key := 1; m_uid := 1; m_cid := 1; m_date := 0; m_seqs := ["unseen"; "Recent"; "kw1"] |} in
